@@ -73,6 +73,10 @@ def map_stone_type_to_python_type(ns, data_type, override_dict=None):
         return map_stone_type_to_python_type(ns, alias_type.data_type, override_dict)
     elif is_user_defined_type(data_type):
         user_defined_type = cast(UserDefined, data_type)
+        if UserDefined in override_dict:
+            # Lets the caller take note of the type (e.g. to import its
+            # namespace); the default formatting still applies.
+            override_dict[UserDefined](ns, user_defined_type, override_dict)
         class_name = class_name_for_data_type(user_defined_type)
         if user_defined_type.namespace.name != ns.name:
             return '{}.{}'.format(
